@@ -37,21 +37,27 @@ THEOREMS = [_T + n for n in [
     "C15_stft_step_pinned_untruthful",
     "C15_monitor_meaning", "C15_axis_ok_clip", "C15_axis_ok_recording", "C15_axis_ok_resample",
     "C15_axis_ok_stft", "C15_axes_increasing",
-    # review: the model factors through the symbolically traced plans; channels; resample / stft outside `hdt` / `hfit`
+    # review: the model factors through the symbolically traced plans; channels; resample outside `hdt`
     "C15_range_factors", "C15_clip_factors", "C15_recording_factors", "C15_resample_factors", "C15_stft_factors",
     "C15_clip_channels", "C15_resample_drift", "C15_resample_within_one_step_iff", "C15_resample_chain_untruthful",
-    "C15_stft_long_window", "C15_stft_long_window_untruthful"]]
+    # fix C15-3 (nperseg clamped to the audio): the spectrogram theorems hold for every window length; the traced
+    # (rational) form of the plan is the model's plan; the pre-repair (un-clamped) behaviour, clearly named
+    "C15_stft_long_window", "C15_stft_plan_tuple",
+    "C15_stft_unclamped_factors", "C15_stft_unclamped_long_window", "C15_stft_unclamped_long_window_untruthful"]]
 LEVEL_TEXT = ("Lean theorems over the integer/rational model of load_clip, load_recording, resample and "
               "compute_spectrogram: a clip has exactly floor(duration x samplerate) frames, frame i is file frame "
               "floor(start x samplerate)+i (zero past the end) at time (offset+i)/samplerate and equals that frame and "
               "time stamp of the loaded recording; time expansion enters only through the recording's samplerate; "
               "create_range_dim yields the N-point lattice whenever the span rounds to N; all four producers' axes are "
               "strictly increasing, start at the source's start and lie within one advertised step of first + i x step "
-              "(resample: drift k x frac/(num x target) < 1/target; repaired spectrogram: exactly first + k x step, "
-              "realised hop within one sample of the requested one); the pinned spectrogram step is proved untruthful "
-              "on a concrete witness; without the assumption that the input axis is truthful the resampled drift is "
-              "characterised exactly (within one step iff k x |n x target x spacing - num| < num; a resampled resampled "
-              "array and a window longer than the audio are proved untruthful on witnesses = known findings). The model "
+              "(resample: drift k x frac/(num x target) < 1/target; repaired spectrogram: exactly first + k x step for "
+              "every window length - a window longer than the audio is clamped to it, fix C15-3, and both advertised "
+              "steps are those of the window actually used; realised hop within one sample of the requested one "
+              "whenever the requested window fits); the pinned spectrogram step and the un-clamped (pre-repair) steps "
+              "of a long window are proved untruthful on concrete witnesses; without the assumption that the input "
+              "axis is truthful the resampled drift is characterised exactly (within one step iff "
+              "k x |n x target x spacing - num| < num; a resampled resampled array is proved untruthful on a witness = "
+              "known finding C15-2). The model "
               "is proved to be the composition of `plans` (offset / frame count / axis start, spacing, count / nperseg, "
               "noverlap, fs / advertised steps) with the library contracts; the plans are tied to the code for all "
               "rational inputs by symbolic traces of the real load_clip, load_recording, create_time_range, "
@@ -69,19 +75,21 @@ TECHNIQUE = ("Lean 4 proof over model; symbolic traces of the audio functions' o
              "real WAV files (exact / round-once / tolerance); theorem-backed axis monitor on implementation output")
 RULE = ("clips x files (1-3 channels, 15 file rates incl. odd and power-of-two ones, expansion 1/2/10) on and off sample "
         "boundaries, past the end of file, zero length; exhaustive small scope; recordings; spectrogram and resample "
-        "pipelines with whole and fractional numbers of samples; non-trivial = the implementation returned an array "
+        "pipelines with whole and fractional numbers of samples, windows shorter than, as long as and longer than the "
+        "audio (exhaustive small scope around the clamp); non-trivial = the implementation returned an array "
         "with at least one frame / coordinate; distinct = distinct (operation, input)")
 TRUSTED = ["soundfile / libsndfile: `seek` + `read(frames, always_2d, fill_value=0)`; PCM_16 codes read back as code/32768",
            "scipy.signal.stft (segment count, `arange(nperseg/2, ...)/fs - (nperseg/2)/fs`, rfftfreq) and "
            "scipy.signal.resample (`t[0] + (t[1]-t[0]) * n/num * arange(num)`): formulas restated in the model, compared each run",
            "xarray: a coordinate whose length differs from the data raises ValueError",
            "Recording.from_file: samplerate = int(file rate x expansion), duration = frames / file rate / expansion (monitored contract)",
-           "fix C16-1 (guard for an empty range in create_range_dim) is assumed present: a zero-length clip loads as an empty array"]
+           "fix C16-1 (guard for an empty range in create_range_dim) is assumed present: a zero-length clip loads as an empty array",
+           "scipy.signal.stft raises ValueError for noverlap >= nperseg (also for the window shortened to the audio): both sides raise"]
 ASSUMPTIONS = ["binary64 arithmetic is exact on the grids used (dyadic times with <= 24 fractional bits, integer rates < 2^22)",
                "float-safety classification `_same_cell`: model applied only where float and exact products share an integer cell",
-               "truthfulness theorems of the spectrogram assume a window no longer than the audio (hypothesis `hfit`) and those "
-               "of resample an input whose spacing is its advertised step (`hdt`); outside them the axes are monitored and "
-               "the two known findings C15-2 / C15-3 (specific matchers) absorb exactly those inputs",
+               "truthfulness theorems of resample assume an input whose spacing is its advertised step (`hdt`); outside it "
+               "the axis is monitored and the known finding C15-2 (specific matcher) absorbs exactly those inputs; the "
+               "spectrogram theorems have no such hypothesis (fix C15-3 assumed present: `nperseg` clamped to the audio)",
                "clips start inside the file or at its very end, start >= 0 (otherwise libsndfile cannot seek: error on both sides)"]
 NOT_COMPARED = ["spectrogram / resampled sample values (scipy numerics; the property pins the axes)",
                 "error messages; which exception a failed seek raises (any exception <-> model `seek`)",
@@ -497,9 +505,8 @@ def _cmp_spec(io, mo):
     a, m = io["val"], mo["val"]
     if a["len"] != m["len"]:
         return _m("number of audio samples differs from the model", f"{a['len']} samples, model {m['len']}")
-    fits = m["nperseg"] <= m["len"]     # otherwise (known finding C15-3) the steps are left to the monitor
-    for ax in ("time", "freq"):
-        msg = _cmp_coords(ax, a[ax]["coords"], m[ax]["coords"]) or (fits and _cmp_step(ax, a[ax]["step"], m[ax]["step"])) or None
+    for ax in ("time", "freq"):     # every window length alike (fix C15-3: the model's steps are those of the clamped window)
+        msg = _cmp_coords(ax, a[ax]["coords"], m[ax]["coords"]) or _cmp_step(ax, a[ax]["step"], m[ax]["step"])
         if msg:
             return msg
     sh = io["aux"]["shape"]
@@ -538,9 +545,11 @@ def _cmp_axis(io, mo):
 
 def _compare_clip_resample(inp, io, mo):
     safe = _clip_safe(inp)
-    if safe and not _is_raise(mo):
-        pass
     n = io["aux"]["n"] if not _is_raise(io) else None
+    if safe and n is None:
+        # the implementation raised: the clip's frame count is floor(duration x samplerate) (float-safe clip), so
+        # the float-safety of `int(n * (target * step))` can still be judged (e.g. 5 * (500000 * (1/2500000)) < 1)
+        n = max(0, math.floor((frac(inp["e"]) - frac(inp["s"])) * _sr(inp)))
     if safe and n is not None:
         safe = _resample_safe(_sr(inp), n, inp["target"])
     if _is_raise(io) or _is_raise(mo):
@@ -691,11 +700,7 @@ def _holds_spec(ctx, inp, io):
     if sh[0] != len(v["freq"]["coords"]) or sh[1] != len(v["time"]["coords"]):
         return _m("spectrogram data shape does not match its own axes", f"shape {sh}")
     if not _window_fits(sr, frac(inp["w"]), v["len"]):
-        # known finding C15-3: scipy shrinks the window, the advertised steps refer to the requested one
-        ctx.tally("spectrogram:window-longer-than-audio (monitored; known finding C15-3 where untruthful)")
-        msg = (_axis_ok(ctx, io["aux"]["t0"], v["time"], "spectrogram time")
-               or _axis_ok(ctx, "0", v["freq"], "spectrogram frequency"))
-        return msg and _m("window longer than the audio: " + msg.split("|")[0].strip()[:28], msg.split("|", 1)[1].strip())
+        ctx.tally("spectrogram:window-longer-than-audio (judged like every other window)")
     return (_axis_ok(ctx, io["aux"]["t0"], v["time"], "spectrogram time")
             or _axis_ok(ctx, "0", v["freq"], "spectrogram frequency"))
 
@@ -721,18 +726,6 @@ def _holds_resample_chain(ctx, inp, io):
 
 
 # ---------------------------------------------------------------------- known findings (specific matchers)
-def _match_long_window(failure, m):
-    """C15-3: spectrogram of an audio array shorter than the window; only the axis monitor's verdict"""
-    if failure.op not in ("spectrogram", "clip_spectrogram") or failure.kind != "property":
-        return False
-    if not failure.detail.startswith("window longer than the audio: "):
-        return False
-    inp, io = failure.inp, failure.impl
-    sr = inp["sr"] if "sr" in inp else _sr(inp)
-    n = io["val"]["len"]
-    return n > 0 and math.floor(frac(inp["w"]) * sr) > n
-
-
 def _match_resample_chain(failure, m):
     """C15-2: second of two resamplings, the first of which did not realise its advertised step (its
     `num` samples span `n` input steps with num / target1 != n / samplerate - because n x target1 /
@@ -747,8 +740,7 @@ def _match_resample_chain(failure, m):
     return n1 * inp["sr"] != inp["n"] * inp["target1"]
 
 
-FINDING_MATCHERS = {"window_longer_than_audio": _match_long_window,
-                    "resample_of_resampled": _match_resample_chain}
+FINDING_MATCHERS = {"resample_of_resampled": _match_resample_chain}
 
 
 def _nontrivial(inp, out):
@@ -959,6 +951,28 @@ def _spec_params(rng, sr, n, grid):
     return w, h
 
 
+def _long_window(rng, sr, n):
+    """window of `n + extra` samples for an audio array of (about) `n` samples - exactly as long, one sample
+    longer, a few, twice, ten times as long, whole and fractional - and a hop that mostly leaves
+    `noverlap < n` (hop = extra gives `noverlap = n`: scipy's ValueError, on both sides)"""
+    extra = rng.choice([0, 1, 1, 2, 3, 14, 40, n, 9 * n])
+    wfr = rng.choice([Fraction(0), Fraction(0), Fraction(1, 2), Fraction(1, 4)])
+    hop = rng.randint(max(1, extra), n + extra)
+    hfr = rng.choice([Fraction(0), Fraction(0), Fraction(1, 2), Fraction(-1, 4)])
+    return (n + extra + wfr) / sr, max(Fraction(1, 4), hop + hfr) / sr
+
+
+def _exhaustive_long_window_cases():
+    """small scope around the clamp: 1-6 and 8 samples at 8 Hz (binary64 exact), every window and hop of
+    1 .. 10 whole samples - windows shorter than, as long as and longer than the audio, every overlap"""
+    out = []
+    for n in (1, 2, 3, 4, 5, 6, 8):
+        for wn in range(1, 11):
+            for hn in range(1, 11):
+                out.append({"len": n, "t0": "3/8", "sr": 8, "ch": 1, "w": rat(Fraction(wn, 8)), "h": rat(Fraction(hn, 8))})
+    return out
+
+
 def _clip_spec_cases(ctx, pool, count, grid):
     rng = ctx.rng
     out = []
@@ -975,6 +989,10 @@ def _clip_spec_cases(ctx, pool, count, grid):
         else:
             s, e = _free(rng, s), _free(rng, e)
         w, h = _spec_params(rng, sr, max(2, length - 2), grid)
+        if rng.random() < 0.08:
+            # window longer than the clip (the code clamps it to the clip, fix C15-3)
+            w, h = _long_window(rng, sr, length)
+            ctx.tally("spectrogram:clip:window-longer-than-audio")
         inp = {**base, "s": rat(s), "e": rat(e), "w": rat(w), "h": rat(h)}
         safe = _clip_safe(inp) and _stft_safe(sr, w, h)
         ctx.tally(f"spectrogram:{'grid' if grid else 'free'}:{'compared' if safe else 'monitor-only'}")
@@ -994,10 +1012,8 @@ def _synthetic_spec_cases(ctx, count):
         t0 = Fraction(float(t0))
         w, h = _spec_params(rng, sr, n, grid=rng.random() < 0.5)
         if rng.random() < 0.12:
-            # window longer than the audio (scipy shrinks it): 1 .. 40 samples too long
-            extra = rng.choice([1, 1, 2, 3, 14, 40])
-            w = Fraction(n + extra, sr)
-            h = Fraction(rng.randint(max(1, extra), n + extra), sr)
+            # window as long as / longer than the audio (the code clamps it, fix C15-3)
+            w, h = _long_window(rng, sr, n)
             ctx.tally("spectrogram:synthetic:window-longer-than-audio")
         case = {"len": n, "t0": rat(t0), "sr": sr, "ch": rng.choice([1, 2]), "w": rat(w), "h": rat(h)}
         if _pow2(sr) and rng.random() < 0.5:
@@ -1130,6 +1146,10 @@ def _stage_spectrograms(ctx):
     ctx.run_cases(OPS["clip_spectrogram"], _clip_spec_cases(ctx, pool, ctx.budget(500, 3000), grid=True))
     ctx.run_cases(OPS["clip_spectrogram"], _clip_spec_cases(ctx, pool, ctx.budget(300, 2000), grid=False))
     ctx.run_cases(OPS["spectrogram"], _synthetic_spec_cases(ctx, ctx.budget(300, 2000)))
+    ex = _exhaustive_long_window_cases()
+    ctx.run_cases(OPS["spectrogram"], ex)
+    ctx.exhaustive["spectrogram small scope"] = ("1-6 and 8 samples at 8 Hz, every window and hop of 1 .. 10 whole samples "
+                                                 "(windows shorter than, equal to and longer than the audio): %d cases" % len(ex))
 
 
 def _stage_resample(ctx):
